@@ -235,3 +235,13 @@ func VerifActiveFeedCount() int32 { return activeFeedCount }
 func VerifExpiryState(b *Bucket) (next uint32, hasTimer bool) {
 	return *b.expManager.nextExp, b.expManager.timer != nil
 }
+
+// VerifResetHLC replaces the process-wide clock by a fresh one, as a newly started process would have.
+func VerifResetHLC() { hlc = NewHybridLogicalClock(0) }
+
+// VerifGlobalHLCHighest returns the last timestamp the process-wide clock issued or was seeded with.
+func VerifGlobalHLCHighest() uint64 {
+	hlc.mutex.Lock()
+	defer hlc.mutex.Unlock()
+	return hlc.highestTime
+}
